@@ -6,6 +6,7 @@ In exact arithmetic x -> a + s (p - a) follows from:
   R1.3 the scale factor is applied exactly once, multiplicatively
   R1.4 anchors = atoms with >= 2 bonds; frame neighbours = two lowest-numbered bonded atoms
   R1.5 the anchor assigned to a target atom is the nearest one among all frames
+  R2.1 the frames used when the map is applied are those of the argument (recomputed on every call)
 """
 from ..core import Ctx
 from . import frames, exmap
@@ -36,3 +37,4 @@ def run(ctx: Ctx):
     exmap.r1_3(ctx)
     exmap.r1_4(ctx)
     exmap.r1_5(ctx)
+    exmap.r2_1(ctx)
